@@ -377,9 +377,9 @@ def homog_dt(ctx, nel=1, N=3, uniform=False):
 HARNESSES = [
     Harness("C04.bc_switch", bc_switch, functions=[DiffusionModel.setup, DiffusionModel.getdXdt, DiffusionModel.setBC, SinglePhaseModel._getFluxes],
             assumptions=["binary single-phase model, linear initial profile, compositions in (0.01, 0.9); backend stubbed (positive diffusivity per node and call)"],
-            bounds={"nodes": "N", "solve calls": 2}, params={"quick": [{"N": 3, "first": "comp"}, {"N": 3, "first": "flux"}], "thorough": [{"N": 4, "first": "comp"}, {"N": 4, "first": "flux"}]}),
+            bounds={"nodes": "N", "solve calls": 2}, params={"quick": [{"N": 3, "first": "comp"}, {"N": 3, "first": "flux"}], "thorough": [{"N": 4, "first": "comp"}, {"N": 4, "first": "flux"}, {"N": 6, "first": "comp"}, {"N": 6, "first": "flux"}]}),
     Harness("C04.homog_dt", homog_dt, functions=[HomogenizationModel.getDt], assumptions=["maxCompositionChange > 0; rate field arbitrary, including exactly zero entries and the all-zero field"],
-            bounds={"nodes": "N"}, params={"quick": [{"nel": 1, "N": 2}, {"nel": 1, "N": 3, "uniform": True}], "thorough": [{"nel": 1, "N": 3}, {"nel": 2, "N": 2}, {"nel": 2, "N": 3, "uniform": True}]}),
+            bounds={"nodes": "N"}, params={"quick": [{"nel": 1, "N": 2}, {"nel": 1, "N": 3, "uniform": True}], "thorough": [{"nel": 1, "N": 3}, {"nel": 2, "N": 2}, {"nel": 2, "N": 3, "uniform": True}, {"nel": 3, "N": 3}, {"nel": 2, "N": 5}, {"nel": 3, "N": 4, "uniform": True}]}),
     Harness("C04.single", single, functions=_F, assumptions=_A, stubs=_S, bounds={"solutes": "nel", "nodes": "N"},
             params={"quick": [{"nel": 1, "N": 3, "bcs": b} for b in B1] + [{"nel": 2, "N": 3, "bcs": b} for b in B2] + [{"nel": 2, "N": 3, "bcs": B2[0], "order": [1, 0]}] +
                              [{"nel": 1, "N": 3, "bcs": B1[3], "strnames": True}, {"nel": 2, "N": 3, "bcs": B2[1], "strnames": True}, {"nel": 1, "N": 3, "bcs": B1[0], "other_first": True},
@@ -396,5 +396,5 @@ HARNESSES = [
                     "thorough": [{"model": "single", "kind_": k, "nel": 1, "N": 3, "bcs": b} for k in ("euler", "rk4") for b in B1[:3]] +
                                 [{"model": "homog", "kind_": "euler", "nel": 1, "N": 3, "bcs": b} for b in B1[:3]] + [{"model": "single", "kind_": "euler", "nel": 2, "N": 3, "bcs": B2[1]}]}),
     Harness("C04.clip", clip, functions=_F, assumptions=_A + ["initial profile >= 0 with node sums <= 1"], stubs=_S,
-            params={"quick": [{"nel": 1, "N": 2}, {"nel": 2, "N": 2}, {"nel": 1, "N": 3, "both": True}, {"nel": 1, "N": 3, "both": True, "strnames": True}], "thorough": [{"nel": 2, "N": 3}, {"nel": 3, "N": 2}, {"nel": 2, "N": 3, "both": True}]}),
+            params={"quick": [{"nel": 1, "N": 2}, {"nel": 2, "N": 2}, {"nel": 1, "N": 3, "both": True}, {"nel": 1, "N": 3, "both": True, "strnames": True}], "thorough": [{"nel": 2, "N": 3}, {"nel": 3, "N": 2}, {"nel": 2, "N": 3, "both": True}, {"nel": 3, "N": 3, "both": True}, {"nel": 1, "N": 5, "both": True}]}),
 ]
